@@ -11,7 +11,7 @@ LEVEL = 'exploration'
 SHARD_TIMEOUT = {'quick': 900, 'thorough': 7200}
 RULE = ('case = one program: IT with a legal (firstcond, mask) [all 15x15 minus the UNPREDICTABLE AL forms], NZCV (all 16), '
         'then the block\'s 1-4 instructions drawn from {16-bit ALU that would set flags, 32-bit ALU, load, branch in the '
-        'last slot (B, or BX/BLX/POP/LDR/MOV to the PC into ARM or Thumb code)}, optionally an exception at slot k in {SVC, UDF, '
+        'last slot (B, or BX/BLX/POP/LDR/MOV to the PC into ARM or Thumb code)}, an exception return in the last slot also restores an ITSTATE (landing inside an IT block; the restored value may equal the one the return executes under), optionally an exception at slot k in {SVC, UDF, '
         'alignment-faulting LDR, WFI trapped to Hyp mode by HCR.TWI} with an ARM or Thumb handler '
         'that performs the standard return; EVERY step (incl. entry and return) is compared location-by-location with '
         'the reference step from the same snapshot, and ITSTATE must be 0 when the block is finished; plus it_advance() '
@@ -176,6 +176,14 @@ def run_program(ls, rng, fc, mask, nzcv):
                 # slot's condition fails
                 body += (0xE996).to_bytes(2, 'little') + (0xC000).to_bytes(2, 'little')
                 img = (r.cpsr.value & 0xF80F03DF) | (0 if to_arm else 0x20)
+                if not to_arm and rng.random() < 0.6:
+                    # ... and, returning to Thumb code, an ITSTATE of its own: the return lands INSIDE an IT block (Thumb NOPs
+                    # there).  Among the values: the very ITSTATE the returning instruction executes under (cond:1000 with
+                    # either value of the condition's low bit) - "restored" and "unchanged" must not be confused
+                    its = rng.choice([(fc << 4) | 0b1000, ((fc ^ 1) << 4) | 0b1000, (fc << 4) | 0b1000, ((fc ^ 1) << 4) | 0b1000,
+                                      (rng.randrange(14) << 4) | rng.choice([0b1000, 0b0100, 0b1100, 0b0110, 0b0001])])
+                    img |= ((its & 3) << 25) | ((its >> 2) << 10)
+                    kinds.append('rfe-into-it-%02x' % its)
                 bo = 'big' if r.cpsr.e else 'little'
                 M.poke(cpu, 0x1000, (target & ~1).to_bytes(4, bo) + img.to_bytes(4, bo))
             elif bk == 'pop':
@@ -301,9 +309,10 @@ def run_program(ls, rng, fc, mask, nzcv):
     final_it = ctx.cpu.registers.cpsr.it
     # skipping a trapped instruction by returning to the next one without editing SPSR.IT legitimately leaves the
     # block skewed (UDF, aborting load); only SVC (whose entry advances ITSTATE first) resumes exactly
-    if stopped_early or any(k_ in ('r32', 'r16') for k_ in kinds):
+    if stopped_early or any(k_ in ('r32', 'r16') or k_.startswith('rfe-into-it') for k_ in kinds):
         # random slot instructions may abort or be UNPREDICTABLE: the end-of-block invariant is only judged for the fixed
-        # instruction mix (every single step is still compared with the reference)
+        # instruction mix (every single step is still compared with the reference); an exception return that installs an
+        # ITSTATE of its own opens a new block whose end lies outside the program
         exc = 'not-judged-to-the-end'
     if exc is None and took:
         ls.bump('programs_with_unplanned_exception')          # a random slot instruction aborted / was undefined: the block is
